@@ -103,6 +103,81 @@ def main():
         ts = coq_list(tree_term(c) for c in t['children'])
         return f"(GStep ({t['step']}) {gs} {ts})"
 
+    def pcode(p):
+        if p.index < 0:
+            return {-1: 0, -2: 1}[p.index]
+        return 2 + (p.subscript * PRED_W + p.index) * 8 + p.arity
+
+    def export_branch(tab, br, arg):
+        "An open branch: its nodes, ticks, the library's model as data, and the library's own judgements."
+        Meta = tab.logic.Meta
+        nodes = [n for n in br]
+        has_flag = any('flag' in n for n in nodes)
+        out = dict(limit_flag=has_flag, index=list(tab).index(br))
+        snodes = [n for n in nodes if 'flag' not in n]
+        out['nodes'] = coq_list(coq_node(n) for n in snodes)
+        out['ticked'] = coq_list(str(i) for i, n in enumerate(snodes) if br.is_ticked(n))
+        out['n_nodes'] = len(snodes)
+        def shape(n):
+            if 'sentence' not in n:
+                return 'access'
+            s_ = n['sentence']
+            neg = False
+            if type(s_).__name__ == 'Operated' and s_.operator.name == 'Negation':
+                inner = s_.lhs
+                if type(inner).__name__ in ('Operated', 'Quantified'):
+                    neg, s_ = True, inner
+            tn = type(s_).__name__
+            base = s_.operator.name if tn == 'Operated' else (s_.quantifier.name if tn == 'Quantified' else tn)
+            if neg and base == 'Negation':
+                base, neg = 'DoubleNegation', False
+            d = n.get('designated')
+            return base + ('Negated' if neg else '') + ('' if d is None else ('Designated' if d else 'Undesignated'))
+        out['shapes'] = [shape(n) for n in snodes]
+        model = br.model
+        if model is None:
+            out['model'] = None
+            return out
+        des = Meta.designated_values
+        judg = []
+        for n in snodes:
+            if 'sentence' in n:
+                try:
+                    v = model.value_of(n['sentence'], world=n.get('world') or 0)
+                    d = n.get('designated')
+                    judg.append(bool((v in des) == (True if d is None else d)))
+                except Exception as e:
+                    judg.append(f'!{type(e).__name__}')
+            else:
+                judg.append(bool(model.R.has((n['world1'], n['world2']))))
+        out['lib_node_ok'] = judg
+        try:
+            out['lib_countermodel'] = bool(model.is_countermodel_to(arg))
+        except Exception as e:
+            out['lib_countermodel'] = f'!{type(e).__name__}: {e}'
+        worlds = sorted(model.frames)
+        pairs = list(model.R.flat(sort=True))
+        def V(v):
+            return 'V' + (v.name if hasattr(v, 'name') else str(v))
+        atoms, prs, opqs = [], [], []
+        for w in worlds:
+            fr = model.frames[w]
+            atoms.append(f"({w}, " + coq_list(f'({a.subscript * ATOM_W + a.index}, {V(v)})' for a, v in sorted(fr.atomics.items())) + ')')
+            plist = []
+            for pred in sorted(fr.predicates):
+                interp = fr.predicates[pred]
+                plist.append(f'({pcode(pred)}, ' + coq_list(
+                    '(' + coq_list(str(cnum(c)) for c in params) + f', {V(v)})' for params, v in sorted(interp.items())) + ')')
+            prs.append(f'({w}, ' + coq_list(plist) + ')')
+            opqs.append(f'({w}, ' + coq_list(f'({coq_sent(s_)}, {V(v)})' for s_, v in sorted(fr.opaques.items())) + ')')
+        out['model'] = ('{| md_worlds := ' + coq_list(map(str, worlds)) +
+                        '; md_pairs := ' + coq_list(f'({a}, {b_})' for a, b_ in pairs) +
+                        '; md_consts := ' + coq_list(str(cnum(c)) for c in sorted(model.constants)) +
+                        f'; md_unassigned := {V(Meta.unassigned_value)}' +
+                        '; md_atoms := ' + coq_list(atoms) + '; md_preds := ' + coq_list(prs) +
+                        '; md_opqs := ' + coq_list(opqs) + ' |}')
+        return out
+
     def idx_of(b, node):
         for i, n in enumerate(b):
             if n is node:
@@ -237,6 +312,8 @@ def main():
                         close_leaves(c)
             close_leaves(root)
             flags = [str(n.get('flag')) for br in tab for n in br if 'flag' in n and n.get('flag') != 'closure']
+            if job.get('models') and tab.invalid:
+                res['open_branches'] = [export_branch(tab, br, arg) for br in tab.open]
             res.update(
                 ok=True, expressible=expressible, why=why,
                 trunk=coq_list(x or 'NA 0 0' for x in trunk_nodes),
